@@ -409,3 +409,7 @@ def check_recursion(repo, res, facts, cg):
         res.ob('C08-R4', 'typed call graph acyclic after removing guards', True,
                sample='no cycle remains after removing %d guarded functions and %d structural edges' % (len(provs), len(STRUCTURAL)))
     res.count('recursion_components', len(sccs) + 1, floor=1)
+    # the guards themselves, interpreted on cyclic stub inputs (import cycles, self-referential bindings)
+    from .. import api_model
+    api_model.apply(res, [r for r in api_model.evaluate_model(repo) if 'terminates' in r[1]], {'guard': 'C08-R4'}, 'supp/evaluator.py', 0)
+    api_model.apply(res, api_model.declarations_model(repo), {'cycle': 'C08-R4'}, 'supp/evaluator.py', 0)
